@@ -372,7 +372,7 @@ PROPS["C18"] = dict(
     harness_timeout=dict(quick=1500, thorough=5400),
     title="epoch advancement never overlooks a registered participant: sequential traversal contract", level="other",
     modules=_L3M, contract_groups=_L3G,
-    kani=dict(quick=_h("list_h.rs", ["c18_iter_sequential", "c18_insert_delete"]) + _h(_INT, ["c13_try_advance", "c15_finalize", "c18_try_advance_stalled"])), kani_flags=_FAST,
+    kani=dict(quick=_h("list_h.rs", ["c18_iter_sequential", "c18_insert_delete", "c18_delete_is_atomic"]) + _h(_INT, ["c13_try_advance", "c15_finalize", "c18_try_advance_stalled"])), kani_flags=_FAST,
     loops="Iter::next's unlink loop and List::insert's CAS loop: unwound with unwinding assertions on (complete for <= 3 entries)",
     bounded=["registry of <= 3 entries with symbolic delete marks; single thread"],
     functions_under_contract=["List::{new,insert,iter}", "Entry::delete", "Iter::next", "Global::try_advance (visits every participant)", "Local::finalize (marks its entry)"],
@@ -390,7 +390,8 @@ PROPS["C18"] = dict(
 BOUNDED_HARNESSES = {
     "c13_collect": "global queue of <= 2 sealed bags", "c13_try_advance": "registry of 2 participants", "c14_try_advance_monotone": "registry of 2 participants",
     "c18_try_advance_stalled": "registry of 3 participants, one environment step", "c15_bag": "bag capacity 3", "c15_defer": "bag capacity 2", "c15_flush": "bag capacity 2", "c15_finalize": "bag capacity 2", "c13_push_bag": "bag of <= 2 functions",
-    "c17_queue_sequential": "queue length <= 3, sequential", "c17_pop_if_under_interference": "queue of 2, one environment step", "c18_iter_sequential": "registry of <= 3 entries, sequential", "c18_insert_delete": "registry of <= 3 entries, sequential",
+    "c17_queue_sequential": "queue length <= 3, sequential", "c17_pop_if_under_interference": "queue of 2, one environment step",
+    "c18_delete_is_atomic": "one entry, <= 2 environment writes", "c18_iter_sequential": "registry of <= 3 entries, sequential", "c18_insert_delete": "registry of <= 3 entries, sequential",
     "c10_new_many_0": "N = 0", "c10_new_many_1": "N = 1", "c10_new_many_2": "N = 2", "c10_new_many_3": "N = 3", "c10_new_many_8": "N = 8",
     "c10_weak_many_0": "N = 0", "c10_weak_many_1": "N = 1", "c10_weak_many_3": "N = 3", "c10_weak_many_8": "N = 8",
 }
